@@ -20,6 +20,7 @@ theorem ThreadInv.transport_same {sys : Sys} {s s' : State} {t : Tid} {th : Thre
   locs := fun loc x hm => by rw [hstubs]; exact h.locs loc x hm
   live := fun x sd hx ho => by rw [hstubs] at hx; exact h.live x sd hx ho
   fresh := fun hi j cd hj hc => by rw [hheap] at hj; exact h.fresh hi j cd hj hc
+  res := h.res
 
 /-- frame rule for an action that touches nothing shared -/
 theorem Inv.frame_local {sys : Sys} {s s' : State} {t : Tid} {th th' : Thread} (hinv : Inv sys s)
@@ -54,7 +55,8 @@ theorem inv_idle_hit (hinv : Inv sys s) (hth : s.threads[t]? = some th) (hp : th
     nodupVals := hT.nodupVals
     locs := hT.locs
     live := fun x sd hx ho => absurd hp (hT.live x sd hx ho).1
-    fresh := fun h => by simp at h }
+    fresh := fun h => by simp at h
+    res := hT.res }
 
 /-- loader cache miss: the request starts -/
 theorem inv_idle_miss (hinv : Inv sys s) (hth : s.threads[t]? = some th) (hp : th.phase = .idle) {l : Label} :
@@ -78,7 +80,8 @@ theorem inv_idle_miss (hinv : Inv sys s) (hth : s.threads[t]? = some th) (hp : t
     nodupVals := by simp
     locs := fun loc x h => by simp at h
     live := fun x sd hx ho => absurd hp (hT.live x sd hx ho).1
-    fresh := fun h => absurd h (nextPhase_ne_idle _ _) }
+    fresh := fun h => absurd h (nextPhase_ne_idle _ _)
+    res := hT.res }
 
 /-- the program counter ran off the program (does not happen: `ThreadInv.sub`) -/
 theorem inv_run_none (hinv : Inv sys s) (hth : s.threads[t]? = some th) {pc : Nat} {sub : Sub}
@@ -109,7 +112,8 @@ theorem threadInv_advance {s' : State} {pc : Nat} {ins : Instr} (hbal : balanced
     (hlocs : ∀ (loc : Loc) (x : Nat), (loc, x) ∈ locs' →
       ∃ sd : StubData, s'.stubs[x]? = some sd ∧ sd.owner = t ∧ sd.target = none)
     (hlive : ∀ (x : Nat) (sd : StubData), s'.stubs[x]? = some sd → sd.owner = t →
-      sd.target ≠ none ∨ ∃ loc, (loc, x) ∈ locs') :
+      sd.target ≠ none ∨ ∃ loc, (loc, x) ∈ locs')
+    (hres : th.result ≠ some .unbound) :
     ThreadInv sys s' t { th with phase := nextPhase (sys.body th.ty).length (pc + 1), stack := stack',
                                  locToStub := locs' } := by
   have hc := next_ctrl (s := s') (sys := sys)
@@ -129,7 +133,8 @@ theorem threadInv_advance {s' : State} {pc : Nat} {ins : Instr} (hbal : balanced
       rcases hlive x sd hx ho with h | h
       · exact Or.inl h
       · exact Or.inr ⟨nextPhase_active _ _, h⟩
-    fresh := fun h => absurd h (nextPhase_ne_idle _ _) }
+    fresh := fun h => absurd h (nextPhase_ne_idle _ _)
+    res := hres }
 
 /-- `ThreadInv` of a running thread that only moves to another micro-state of the same instruction -/
 theorem ThreadInv.set_sub {s' : State} {pc : Nat} {sub sub' : Sub} (h : ThreadInv sys s' t th)
@@ -154,6 +159,7 @@ theorem ThreadInv.set_sub {s' : State} {pc : Nat} {sub sub' : Sub} (h : ThreadIn
     · exact Or.inl h2
     · exact Or.inr ⟨rfl, h2⟩
   fresh := fun hp' => by cases hp'
+  res := h.res
 
 theorem ThreadInv.transport_stubs_same {s' : State} (h : ThreadInv sys s t th) (e : Ext s s')
     (hstubs : s'.stubs = s.stubs) (hni : th.phase ≠ .idle) : ThreadInv sys s' t th where
@@ -169,6 +175,7 @@ theorem ThreadInv.transport_stubs_same {s' : State} (h : ThreadInv sys s t th) (
   locs := fun loc x hm => by rw [hstubs]; exact h.locs loc x hm
   live := fun x sd hx ho => by rw [hstubs] at hx; exact h.live x sd hx ho
   fresh := fun hi => absurd hi hni
+  res := h.res
 
 theorem run_active {pc : Nat} {sub : Sub} (hp : th.phase = .run pc sub) : th.phase.isActive = true := by
   rw [hp]; rfl
@@ -193,7 +200,7 @@ theorem inv_stubGet_reuse (hinv : Inv sys s) (hth : s.threads[t]? = some th) {pc
   have hT := hinv.threads t th hth
   refine hinv.frame_local hth rfl rfl rfl rfl rfl (fun h => (run_not_closed hp h).elim) ?_
   have := threadInv_advance (sys := sys) (s' := s) (t := t) (th := th) hT.bal hins
-    (stack' := .stub x :: th.stack) (locs' := th.locToStub) ?_ ?_ hT.nodup hT.nodupVals hT.locs (live_of_run hT)
+    (stack' := .stub x :: th.stack) (locs' := th.locToStub) ?_ ?_ hT.nodup hT.nodupVals hT.locs (live_of_run hT) hT.res
   · exact this
   · intro a ha
     rcases List.mem_cons.mp ha with ha | ha
@@ -250,7 +257,7 @@ theorem inv_stubGet_new (hinv : Inv sys s) (hth : s.threads[t]? = some th) {pc :
       subst hxl
       rw [hnew] at hx; cases hx; cases hr
   · intro en hen; exact Or.inl hen
-  · refine threadInv_advance (sys := sys) (t := t) (th := th) hT.bal hins ?_ ?_ ?_ ?_ ?_ ?_
+  · refine threadInv_advance (sys := sys) (t := t) (th := th) hT.bal hins ?_ ?_ ?_ ?_ ?_ ?_ hT.res
     · intro a ha
       rcases List.mem_cons.mp ha with ha | ha
       · rw [ha]; exact ⟨_, hnew, rfl⟩
@@ -335,7 +342,7 @@ theorem inv_stubBind (hinv : Inv sys s) (hth : s.threads[t]? = some th) {pc : Na
     · rw [hother y hxy] at hy
       exact Or.inl ⟨sd', hy, hr'⟩
   · intro en hen; exact Or.inl hen
-  · refine threadInv_advance (sys := sys) (t := t) (th := th) hT.bal hins ?_ ?_ ?_ ?_ ?_ ?_
+  · refine threadInv_advance (sys := sys) (t := t) (th := th) hT.bal hins ?_ ?_ ?_ ?_ ?_ ?_ hT.res
     · intro a ha; exact (hT.stack (run_active hp) a ha).mono e.toExt
     · have hk := (hT.sub pc sub hp).2.1
       intro a ha
@@ -376,7 +383,7 @@ theorem inv_stubBind_none (hinv : Inv sys s) (hth : s.threads[t]? = some th) {pc
   refine hinv.frame_local hth rfl rfl rfl rfl rfl (fun h => (run_not_closed hp h).elim) ?_
   have := threadInv_advance (sys := sys) (s' := s) (t := t) (th := th) hT.bal hins
     (stack' := th.stack) (locs' := th.locToStub) (hT.stack (run_active hp)) ?_ hT.nodup hT.nodupVals hT.locs
-    (live_of_run hT)
+    (live_of_run hT) hT.res
   · exact this
   · have hk := (hT.sub pc sub hp).2.1
     intro a ha
